@@ -10,10 +10,13 @@ package main
 //           | t:<addr>:<k>    one TCP connection carrying k queries one after the other
 //           | h:<addr>:<k>    one HTTP/1.1 connection carrying k POSTs
 //           | q:<addr>:<k>    one DoQ connection carrying k queries, one stream each
+//           | g:<addr>:<k>    like t, on the gnet listener
+//           | f:<addr>:<k>    like h, on the fasthttp listener
 //           | x:<addr>:<n>    router.limiterAllowN(addr, n) through the verif hook
 //        <addr> = 4<8 hex>
 // out  : r=<per-op outcome>,... fwd=<queries seen by the upstream>
-//        per query: o = answered NOERROR (HTTP: 200 + NOERROR), r = RCODE REFUSED, 5 = HTTP 503,
+//        per query: o = answered NOERROR (HTTP: 200 + NOERROR), r = RCODE REFUSED (with exactly one OPT
+//        record iff the query had one; e = REFUSED with a wrong number of OPT records), 5 = HTTP 503,
 //        c = the connection was closed on us; DoQ: x = the stream was closed without an answer;
 //        x ops: o = nil, g = global limit, k = client limit
 
@@ -103,14 +106,22 @@ func c15lFreePorts() (udp, tcp, httpP int, ok bool) {
 	return u.LocalAddr().(*net.UDPAddr).Port, t.Addr().(*net.TCPAddr).Port, h.Addr().(*net.TCPAddr).Port, true
 }
 
-func c15lQuery() []byte {
+// every other query carries an OPT record (edns0)
+func c15lQuery() ([]byte, bool) {
 	q := new(dns.Msg)
-	q.SetQuestion(fmt.Sprintf("q%d.c15.test.", c15l.qid.Add(1)), dns.TypeA)
+	id := c15l.qid.Add(1)
+	q.SetQuestion(fmt.Sprintf("q%d.c15.test.", id), dns.TypeA)
+	edns := id%2 == 0
+	if edns {
+		q.SetEdns0(1232, false)
+	}
 	b, _ := q.Pack()
-	return b
+	return b, edns
 }
 
-func c15lClass(b []byte) byte {
+// o = NOERROR, r = REFUSED with exactly one OPT iff the query had one (088a886),
+// e = REFUSED with a wrong number of OPT records
+func c15lClass(b []byte, edns bool) byte {
 	m := new(dns.Msg)
 	if m.Unpack(b) != nil || !m.Response {
 		return '?'
@@ -119,7 +130,16 @@ func c15lClass(b []byte) byte {
 	case dns.RcodeSuccess:
 		return 'o'
 	case dns.RcodeRefused:
-		return 'r'
+		opts := 0
+		for _, rr := range m.Extra {
+			if rr.Header().Rrtype == dns.TypeOPT {
+				opts++
+			}
+		}
+		if (edns && opts == 1) || (!edns && opts == 0) {
+			return 'r'
+		}
+		return 'e'
 	}
 	return '?'
 }
@@ -131,7 +151,8 @@ func c15lUDP(src netip.Addr, port int) string {
 	}
 	defer c.Close()
 	c.SetDeadline(time.Now().Add(700 * time.Millisecond))
-	if _, err := c.Write(c15lQuery()); err != nil {
+	q, ed := c15lQuery()
+	if _, err := c.Write(q); err != nil {
 		return "E"
 	}
 	buf := make([]byte, 4096)
@@ -139,7 +160,7 @@ func c15lUDP(src netip.Addr, port int) string {
 	if err != nil {
 		return "t"
 	}
-	return string(c15lClass(buf[:n]))
+	return string(c15lClass(buf[:n], ed))
 }
 
 func c15lDialTCP(src netip.Addr, port int) (net.Conn, error) {
@@ -156,7 +177,7 @@ func c15lTCP(src netip.Addr, port, k int) string {
 	c.SetDeadline(time.Now().Add(700 * time.Millisecond))
 	var out []byte
 	for i := 0; i < k; i++ {
-		q := c15lQuery()
+		q, ed := c15lQuery()
 		fr := make([]byte, 2+len(q))
 		binary.BigEndian.PutUint16(fr, uint16(len(q)))
 		copy(fr[2:], q)
@@ -174,7 +195,7 @@ func c15lTCP(src netip.Addr, port, k int) string {
 			out = append(out, 'c')
 			break
 		}
-		out = append(out, c15lClass(b))
+		out = append(out, c15lClass(b, ed))
 	}
 	return string(out)
 }
@@ -189,7 +210,7 @@ func c15lHTTP(src netip.Addr, port, k int) string {
 	br := bufio.NewReader(c)
 	var out []byte
 	for i := 0; i < k; i++ {
-		q := c15lQuery()
+		q, ed := c15lQuery()
 		req := fmt.Sprintf("POST /dns-query HTTP/1.1\r\nHost: c15.test\r\nContent-Type: application/dns-message\r\nContent-Length: %d\r\n\r\n", len(q))
 		if _, err := c.Write(append([]byte(req), q...)); err != nil {
 			out = append(out, 'c')
@@ -204,7 +225,7 @@ func c15lHTTP(src netip.Addr, port, k int) string {
 		resp.Body.Close()
 		switch resp.StatusCode {
 		case 200:
-			out = append(out, c15lClass(body))
+			out = append(out, c15lClass(body, ed))
 		case 503:
 			out = append(out, '5')
 		default:
@@ -242,7 +263,7 @@ func c15lQUIC(src netip.Addr, port, k int) string {
 			break
 		}
 		st.SetDeadline(time.Now().Add(700 * time.Millisecond))
-		q := c15lQuery()
+		q, ed := c15lQuery()
 		q[0], q[1] = 0, 0
 		fr := make([]byte, 2+len(q))
 		binary.BigEndian.PutUint16(fr, uint16(len(q)))
@@ -254,7 +275,7 @@ func c15lQUIC(src netip.Addr, port, k int) string {
 		if rerr == nil {
 			b := make([]byte, binary.BigEndian.Uint16(l[:]))
 			if _, rerr = io.ReadFull(st, b); rerr == nil {
-				out = append(out, c15lClass(b))
+				out = append(out, c15lClass(b, ed))
 				continue
 			}
 		}
@@ -273,6 +294,15 @@ func c15lQUIC(src netip.Addr, port, k int) string {
 		}
 	}
 	return string(out)
+}
+
+func c15lFreeTCPPort() int {
+	t, err := net.Listen("tcp", "127.0.0.1:0")
+	if err != nil {
+		return 0
+	}
+	defer t.Close()
+	return t.Addr().(*net.TCPAddr).Port
 }
 
 func c15lFreeUDPPort() int {
@@ -308,6 +338,15 @@ func c15lRunOnce(m map[string]string) (string, time.Duration, bool) {
 		cfg.Servers = append(cfg.Servers, router.ServerConfig{Tag: "q", Protocol: "quic", Listen: fmt.Sprintf("127.0.0.1:%d", pq),
 			Tls: router.TlsConfig{DebugUseTempCert: true}})
 	}
+	pg, pf := 0, 0
+	if strings.Contains(m["ops"], "g:") { // the gnet listener only when it is used
+		pg = c15lFreeTCPPort()
+		cfg.Servers = append(cfg.Servers, router.ServerConfig{Tag: "g", Protocol: "gnet", Listen: fmt.Sprintf("127.0.0.1:%d", pg)})
+	}
+	if strings.Contains(m["ops"], "f:") { // the fasthttp listener only when it is used
+		pf = c15lFreeTCPPort()
+		cfg.Servers = append(cfg.Servers, router.ServerConfig{Tag: "f", Protocol: "fasthttp", Listen: fmt.Sprintf("127.0.0.1:%d", pf)})
+	}
 	vr, err := router.VerifRun(cfg)
 	if err != nil {
 		return "", 0, false
@@ -338,6 +377,10 @@ func c15lRunOnce(m map[string]string) (string, time.Duration, bool) {
 			outs = append(outs, c15lHTTP(src, ph, k))
 		case "q":
 			outs = append(outs, c15lQUIC(src, pq, k))
+		case "g":
+			outs = append(outs, c15lTCP(src, pg, k))
+		case "f":
+			outs = append(outs, c15lHTTP(src, pf, k))
 		case "x":
 			err := vr.LimiterAllowN(src, k)
 			switch {
@@ -396,6 +439,13 @@ func c15lGen(r *rand.Rand, thorough bool, emit func(c, cat string)) {
 		{fmt.Sprintf("glob=0 burst=5 v4=32 ops=u:%s,u:%s,u:%s,u:%s,u:%s", a, a, a, a2, a2), "udp-mask32"},
 		// /16: 127.0.1.x and 127.0.2.x are one client
 		{fmt.Sprintf("glob=0 burst=9 v4=16 ops=u:%s,u:%s,u:%s,t:%s:1,h:%s:1", a, b, a2, b, a), "mixed-mask16"},
+		// hunt-E findings 2, 3 (10570ce): budget for 4 of 40 queries on one connection, 36 refused (REFUSED / 503)
+		// and not forwarded - on the gnet and fasthttp listeners exactly as on tcp and http
+		{fmt.Sprintf("glob=0 burst=20 v4=0 ops=t:%s:40", a), "tcp-4-of-40"},
+		{fmt.Sprintf("glob=0 burst=20 v4=0 ops=g:%s:40", a), "gnet-4-of-40"},
+		{fmt.Sprintf("glob=0 burst=20 v4=0 ops=h:%s:40", a), "http-4-of-40"},
+		{fmt.Sprintf("glob=0 burst=20 v4=0 ops=f:%s:40", a), "fasthttp-4-of-40"},
+		{fmt.Sprintf("glob=0 burst=12 v4=0 ops=g:%s:4,g:%s:1,f:%s:2,f:%s:1,u:%s", a, a2, b, b, b), "gnet-fasthttp-subnets"},
 		// DoQ: the connection cost (15) is charged to the client's address (D9), a refused query closes its stream
 		{fmt.Sprintf("glob=0 burst=16 v4=0 ops=q:%s:1,u:%s,u:%s,q:%s:2", a, a, a2, b), "quic-conn-cost"},
 		{fmt.Sprintf("glob=0 burst=24 v4=0 ops=q:%s:3,q:%s:1,u:%s", a, a2, b), "quic-subnets"},
@@ -428,12 +478,24 @@ func c15lGen(r *rand.Rand, thorough bool, emit func(c, cat string)) {
 		burst := 3 + r.Intn(30)
 		var ops []string
 		kinds := ""
+		useGnet := r.Intn(6) == 0
 		for j := 0; j < 3+r.Intn(8); j++ {
 			s := srcs[r.Intn(len(srcs))]
 			if r.Intn(3) == 0 {
 				s = srcs[0] // a hot client
 			}
-			switch r.Intn(9) {
+			switch r.Intn(12) {
+			case 9, 10:
+				if useGnet { // stopping a gnet engine takes about half a second: one case in six
+					ops = append(ops, fmt.Sprintf("g:%s:%d", s, 1+r.Intn(4)))
+					kinds += "g"
+				} else {
+					ops = append(ops, fmt.Sprintf("t:%s:%d", s, 1+r.Intn(4)))
+					kinds += "t"
+				}
+			case 11:
+				ops = append(ops, fmt.Sprintf("f:%s:%d", s, 1+r.Intn(4)))
+				kinds += "f"
 			case 0, 1, 2, 3:
 				ops = append(ops, "u:"+s)
 				kinds += "u"
@@ -449,7 +511,7 @@ func c15lGen(r *rand.Rand, thorough bool, emit func(c, cat string)) {
 			}
 		}
 		cat := "net"
-		for _, k := range "uthq" {
+		for _, k := range "uthqgf" {
 			if strings.ContainsRune(kinds, k) {
 				cat += "-" + string(k)
 			}
